@@ -774,6 +774,35 @@ impl SendBuf {
     }
 }
 
+#[cfg(gmquic_verif)]
+impl SendBuf {
+    /// Read-only dump for the verification harness: the raw boundary list as
+    /// (offset, colour code: 0 Pending, 1 Flighting, 2 Lost, 3 Recved), the map size and
+    /// the buffer's base offset.
+    pub fn verif_colours(&self) -> (Vec<(u64, u8)>, u64, u64) {
+        let runs = self
+            .state
+            .0
+            .iter()
+            .map(|s| {
+                let code = match s.color() {
+                    Color::Pending => 0u8,
+                    Color::Flighting => 1,
+                    Color::Lost => 2,
+                    Color::Recved => 3,
+                };
+                (s.offset(), code)
+            })
+            .collect();
+        (runs, self.state.size(), self.offset)
+    }
+
+    /// Read-only: total number of payload bytes still held in the data deque.
+    pub fn verif_retained(&self) -> u64 {
+        self.data.iter().map(|d| d.len() as u64).sum()
+    }
+}
+
 #[cfg(test)]
 mod tests {
     use qbase::net::tx::Signals;
